@@ -144,6 +144,7 @@ func (j *Joe) Subscribe(ctx context.Context, sub Subscription) error {
 		// Joe closes done when he removes the subscriber; an error he reported
 		// before receiving the unsubscription is still delivered here.
 		err := <-done
+		verifAt("sub.s4.done", sub.Client, err)
 		return err
 	}
 }
@@ -214,6 +215,7 @@ func (j *Joe) Shutdown(ctx context.Context) (err error) {
 func (j *Joe) removeSubscriber(sub subscriber) {
 	verifAt("loop.remove", sub, nil)
 	_, ok := j.subscribers[sub]
+	verifAt("loop.removing", sub, ok)
 	if !ok {
 		// Already removed (and closed) because it failed; this is its late unsubscription.
 		return
